@@ -58,6 +58,7 @@ type c05Obs struct {
 	lc, lb     *simnet.Conn
 	ua, ub     *simnet.Conn
 	dlAtDial   time.Time
+	serverEndAt, clientEndAt int64
 	now        func() int64
 }
 
@@ -130,12 +131,13 @@ func c05ControlPlane(o *c05Obs, mode string) (*ControlPlane, error) {
 	return cp, nil
 }
 
-func c05ReadAll(c *simnet.Conn, sink *[]byte, eof *bool, errs *string) {
+func c05ReadAll(c *simnet.Conn, sink *[]byte, eof *bool, errs *string, endAt *int64) {
 	buf := make([]byte, 4096)
 	for {
 		n, err := c.Read(buf)
 		*sink = append(*sink, buf[:n]...)
 		if err != nil {
+			*endAt = time.Now().UnixNano()
 			if err == io.EOF {
 				*eof = true
 			} else {
@@ -184,9 +186,9 @@ func C05Scenario(p *C05Params) *vsched.Scenario {
 			}
 			if p.ClientFin {
 				lb.CloseWrite()
-				c05ReadAll(lb, &o.clientGot, &o.clientEOF, &o.clientErr)
+				c05ReadAll(lb, &o.clientGot, &o.clientEOF, &o.clientErr, &o.clientEndAt)
 			} else {
-				c05ReadAll(lb, &o.clientGot, &o.clientEOF, &o.clientErr)
+				c05ReadAll(lb, &o.clientGot, &o.clientEOF, &o.clientErr, &o.clientEndAt)
 				lb.CloseWrite()
 			}
 		}()
@@ -215,13 +217,13 @@ func C05Scenario(p *C05Params) *vsched.Scenario {
 				send()
 			}
 			if p.ClientFin {
-				c05ReadAll(ub, &o.serverGot, &o.serverEOF, &o.serverErr)
+				c05ReadAll(ub, &o.serverGot, &o.serverEOF, &o.serverErr, &o.serverEndAt)
 				send()
 				ub.CloseWrite()
 			} else {
 				send()
 				ub.CloseWrite()
-				c05ReadAll(ub, &o.serverGot, &o.serverEOF, &o.serverErr)
+				c05ReadAll(ub, &o.serverGot, &o.serverEOF, &o.serverErr, &o.serverEndAt)
 			}
 		}()
 		vsched.WaitUntil(func() bool { return o.handleDone && o.clientDone && o.serverDone })
@@ -246,16 +248,26 @@ func C05Scenario(p *C05Params) *vsched.Scenario {
 		if o.dials != 1 {
 			return fmt.Sprintf("upstream dialled %d times", o.dials), detail
 		}
-		if !bytes.Equal(o.serverGot, want) {
+		// The relay keeps the opposite direction open only for its bounded grace period after it has forwarded one
+		// side's end-of-stream: a direction that ends (truncated, or without a clean EOF) at least that long after the
+		// relay's write-shutdown of the OTHER direction is within the statement and is not a violation.
+		grace := int64(relayHalfCloseTimeout)
+		graceOver := func(forwardedEOF time.Time, endAt int64) bool {
+			return !forwardedEOF.IsZero() && endAt > 0 && endAt-forwardedEOF.UnixNano() >= grace
+		}
+		l2rExcused := graceOver(o.lc.CloseWriteAt, o.serverEndAt) // upstream->client finished first; client->upstream ran out of grace
+		r2lExcused := o.ua != nil && graceOver(o.ua.CloseWriteAt, o.clientEndAt)
+		lost := func(want, got []byte) bool { return len(got) < len(want) && bytes.HasPrefix(want, got) }
+		if !bytes.Equal(o.serverGot, want) && !(l2rExcused && lost(want, o.serverGot)) {
 			return classify("client->upstream", want, o.serverGot), detail
 		}
-		if !bytes.Equal(o.clientGot, wantBack) {
+		if !bytes.Equal(o.clientGot, wantBack) && !(r2lExcused && lost(wantBack, o.clientGot)) {
 			return classify("upstream->client", wantBack, o.clientGot), detail
 		}
-		if !o.serverEOF {
+		if !o.serverEOF && !l2rExcused {
 			return "client end-of-stream was not passed on to the upstream as a write-shutdown (server saw: " + o.serverErr + ")", detail
 		}
-		if !o.clientEOF {
+		if !o.clientEOF && !r2lExcused {
 			return "upstream end-of-stream was not passed on to the client as a write-shutdown (client saw: " + o.clientErr + ")", detail
 		}
 		// detection windows: DNS first-read window on port 53, prefetch + sniffer windows otherwise, plus routing lookup retries
@@ -275,7 +287,7 @@ func C05Scenario(p *C05Params) *vsched.Scenario {
 	}
 	outcome := func(r *vsched.Result) string {
 		o := c05Cur
-		return fmt.Sprintf("s=%q c=%q eof=%v/%v dial=%dms herr=%v", o.serverGot, o.clientGot, o.serverEOF, o.clientEOF, (o.dialAt-o.start)/1e6, o.handleErr != nil)
+		return fmt.Sprintf("s=%d c=%d eof=%v/%v dial=%dms herr=%v", len(o.serverGot), len(o.clientGot), o.serverEOF, o.clientEOF, (o.dialAt-o.start)/1e6, o.handleErr != nil)
 	}
 	return &vsched.Scenario{Name: p.Name, Body: body, Check: check, Outcome: outcome, MaxSteps: 6000, HorizonNs: int64(300 * time.Second), CostedSwitch: true}
 }
